@@ -418,8 +418,11 @@ package types
 //@ (declare-fun docSpentSum ((Array Int enterprise.SpentEFUND) Int) Int)
 //@ (define-fun docSpentSum.def ((xs (Array Int enterprise.SpentEFUND)) (n Int)) Int (ite (<= n 0) 0 (+ (docSpentSum xs (- n 1)) (Amt (enterprise.SpentEFUND.Amount (select xs (- n 1)))))))
 //@ ; a store without book entries has empty sums
-//@ (assert (forall ((s (Array enterprise.Key (Slice Int)))) (! (=> (forall ((a BytesV)) (! (not (lockedHas s a)) :pattern ((select s (kLocked a))))) (= (lockSum s) 0)) :pattern ((lockSum s)))))
-//@ (assert (forall ((s (Array enterprise.Key (Slice Int)))) (! (=> (forall ((a BytesV)) (! (not (spentHas s a)) :pattern ((select s (kSpent a))))) (= (spentSum s) 0)) :pattern ((spentSum s)))))
+//@ ; emptyBooks(s): the store holds no locked and no spent entry; then both sums are zero (only stated for stores marked so,
+//@ ; which keeps the quantified premise out of every other proof)
+//@ (declare-fun emptyBooks ((Array enterprise.Key (Slice Int))) Bool)
+//@ (assert (forall ((s (Array enterprise.Key (Slice Int)))) (! (=> (emptyBooks s) (and (= (lockSum s) 0) (= (spentSum s) 0))) :pattern ((emptyBooks s)))))
+//@ (assert (forall ((s (Array enterprise.Key (Slice Int))) (a BytesV)) (! (=> (emptyBooks s) (and (not (lockedHas s a)) (not (spentHas s a)))) :pattern ((emptyBooks s) (select s (kLocked a))) :pattern ((emptyBooks s) (select s (kSpent a))))))
 //@ (define-fun mkLocked ((o Str) (c sdk.Coin)) enterprise.LockedUnd (mk.enterprise.LockedUnd o c))
 //@ (define-fun lockedBytes ((r enterprise.LockedUnd)) (Slice Int) (marshal.enterprise.LockedUnd r))
 //@ (define-fun spentBytes ((r enterprise.SpentEFUND)) (Slice Int) (marshal.enterprise.SpentEFUND r))
